@@ -72,6 +72,12 @@ def one(spec, batch, stats, lang=False, staged=False):
             except Exception as e:
                 evs.append({"e": "analysis", "exc": exc_name(e), "mode": mode, "impl": {"expd": mode}})
         if g0 is not None:
+            # the FIRST grammar again, after another grammar over the same classes (the other depth mode) was extracted:
+            # its analysis is its own
+            try:
+                evs.append({"e": "analysis", "exc": "", "mode": False, "impl": impl_grammar(g0)})
+            except Exception as e:
+                evs.append({"e": "analysis", "exc": exc_name(e), "mode": False, "impl": {"expd": False}})
             try:
                 with time_limit(5):
                     u = g0.usable_grammar()
